@@ -154,6 +154,8 @@ pub struct Inst<T: Smp> {
     pub stream_len: Vec<u64>,
     pub ckpt: usize,
     pub dead: bool,
+    pub blk: usize,          // block size for stream block digests (0 = off)
+    pub blk_acc: Vec<u64>,   // bits of the frames of the current, incomplete block (first active channel)
 }
 
 pub enum AnyInst {
@@ -457,6 +459,8 @@ pub fn build<T: Smp>(op: &Value) -> (Option<Inst<T>>, Value) {
                 stream_len: vec![0; ch],
                 ckpt: gi(op, "ckpt", 0) as usize,
                 dead: false,
+                blk: gi(op, "blk", 0) as usize,
+                blk_acc: Vec::new(),
             };
             m.insert("post".into(), getters(&inst.res));
             m.insert("priv".into(), privs(&inst.res));
@@ -536,26 +540,34 @@ fn digest<T: Smp>(v: &[T]) -> String {
     format!("{:016x}", h)
 }
 
-pub struct Ctx<'a> {
-    pub out: &'a mut dyn Write,
+pub type Out = Arc<Mutex<Box<dyn Write + Send>>>;
+
+pub struct Ctx {
+    pub out: Out,
     pub line: i64,
+    pub thread: i64,
 }
 
-impl<'a> Ctx<'a> {
+impl Ctx {
+    fn put(&self, v: &Value) {
+        if let Ok(mut g) = self.out.lock() {
+            let _ = writeln!(g, "{}", v);
+            let _ = g.flush();
+        }
+    }
     pub fn emit(&mut self, mut ev: Value) {
-        ev.as_object_mut()
-            .unwrap()
-            .insert("line".into(), json!(self.line));
-        let _ = writeln!(self.out, "{}", ev);
-        let _ = self.out.flush();
+        let m = ev.as_object_mut().unwrap();
+        m.insert("line".into(), json!(self.line));
+        m.insert("thread".into(), json!(self.thread));
+        self.put(&ev);
     }
     pub fn pending(&mut self, ev: &Value) {
         let mut p = ev.clone();
         let m = p.as_object_mut().unwrap();
         m.insert("line".into(), json!(self.line));
+        m.insert("thread".into(), json!(self.thread));
         m.insert("pending".into(), json!(true));
-        let _ = writeln!(self.out, "{}", p);
-        let _ = self.out.flush();
+        self.put(&p);
     }
 }
 
@@ -579,6 +591,7 @@ fn call_defaults(m: &mut Map<String, Value>) {
         ("ckpts", json!([])),
         ("peak", json!([])),
         ("vals", json!([])),
+        ("blocks", json!([])),
     ] {
         m.entry(k.to_string()).or_insert(v);
     }
@@ -629,8 +642,16 @@ impl<T: Smp> Inst<T> {
         let out_extra = gi(op, "out_extra", 0).max(0) as usize;
         let short_in = op.get("short_in").and_then(|a| a.as_array()).cloned();
         let short_out = op.get("short_out").and_then(|a| a.as_array()).cloned();
-        let k_partial = gi(op, "k", -1); // partial: frames supplied, -1 = None
-        let zero_from = gi(op, "zero_from", -1); // core twin of partial: zero padding from here
+        // "kf"/"zf": [num, den] -> the count is a fraction of input_frames_next (at least 1)
+        let frac_of = |key: &str| -> Option<i64> {
+            op.get(key).and_then(|a| a.as_array()).and_then(|a| {
+                let n = a.first()?.as_i64()?;
+                let d = a.get(1)?.as_i64()?.max(1);
+                Some(((in_next as i64 * n) / d).max(1).min(in_next as i64))
+            })
+        };
+        let k_partial = frac_of("kf").unwrap_or(gi(op, "k", -1)); // partial: frames supplied, -1 = None
+        let zero_from = frac_of("zf").unwrap_or(gi(op, "zero_from", -1)); // core twin of partial: zero padding from here
         let out_mode = gs(op, "out", "next");
         // ---- input buffers
         let is_partial = opname == "partial";
@@ -850,6 +871,23 @@ impl<T: Smp> Inst<T> {
                         .map(|(h, n)| json!([*n as i64, format!("{:016x}", h)]))
                         .collect::<Vec<_>>()),
                 );
+                if let (Some(c), true) = (tau_chan, self.blk > 0) {
+                    let v = &outs[c];
+                    let upto = nout.min(v.len());
+                    let mut blocks = vec![];
+                    for x in &v[..upto] {
+                        self.blk_acc.push(x.bits64());
+                        if self.blk_acc.len() == self.blk {
+                            let mut h = 0xcbf29ce484222325u64;
+                            for b in &self.blk_acc {
+                                fnv(&mut h, *b);
+                            }
+                            blocks.push(format!("{:016x}", h));
+                            self.blk_acc.clear();
+                        }
+                    }
+                    m.insert("blocks".into(), json!(blocks));
+                }
                 if let Some(c) = tau_chan {
                     let v = &outs[c];
                     let upto = nout.min(v.len());
@@ -1035,6 +1073,7 @@ impl<T: Smp> Inst<T> {
                     for l in self.stream_len.iter_mut() {
                         *l = 0;
                     }
+                    self.blk_acc.clear();
                 }
             }
         }
@@ -1044,59 +1083,139 @@ impl<T: Smp> Inst<T> {
     }
 }
 
+pub type Slot = (AnyInst, f64, f64);
+
+/// One operation on the instance table.
+fn exec_op(insts: &mut Vec<Option<Slot>>, op: &Value, cx: &mut Ctx) {
+    let name = gs(op, "op", "");
+    let id = gi(op, "id", 0) as usize;
+    if name == "new" {
+        while insts.len() <= id {
+            insts.push(None);
+        }
+        let (r, _, _) = parse_ratio(op.get("r").unwrap_or(&Value::Null));
+        let (mr, _, _) = parse_ratio(op.get("maxrel").unwrap_or(&Value::Null));
+        if gi(op, "T", 64) == 32 {
+            let (i, ev) = build::<f32>(op);
+            cx.emit(ev);
+            insts[id] = i.map(|x| (AnyInst::F32(x), r, mr));
+        } else {
+            let (i, ev) = build::<f64>(op);
+            cx.emit(ev);
+            insts[id] = i.map(|x| (AnyInst::F64(x), r, mr));
+        }
+        return;
+    }
+    if name == "note" {
+        let mut ev = op.clone();
+        ev.as_object_mut().unwrap().insert("ev".into(), json!("note"));
+        cx.emit(ev);
+        return;
+    }
+    let slot = match insts.get_mut(id) {
+        Some(Some(s)) => s,
+        _ => return, // instance does not exist (constructor failed): op skipped
+    };
+    let (orig, maxrel) = (slot.1, slot.2);
+    macro_rules! with {
+        ($i:ident => $b:expr) => {
+            match &mut slot.0 {
+                AnyInst::F32($i) => $b,
+                AnyInst::F64($i) => $b,
+            }
+        };
+    }
+    let dead = with!(i => i.dead);
+    if dead {
+        return;
+    }
+    match name {
+        "process" | "partial" | "bad" => with!(i => i.op_process(op, cx)),
+        "set_ratio" => with!(i => i.op_set_ratio(op, cx, orig, maxrel)),
+        "reset" | "set_chunk" | "getters" => with!(i => i.op_simple(op, cx)),
+        _ => {}
+    }
+}
+
 /// Run a whole script (already parsed into ops); events go to `out`.
-pub fn run_script(ops: &[Value], out: &mut dyn Write) {
-    let mut insts: Vec<Option<(AnyInst, f64, f64)>> = Vec::new();
-    let mut cx = Ctx { out, line: 0 };
-    for (ln, op) in ops.iter().enumerate() {
-        cx.line = ln as i64 + 1;
+///
+/// * an op with "thread": k > 0 is executed on a freshly spawned OS thread (the instance is handed
+///   over and back at that call boundary);
+/// * ops between {"op":"par_begin"} and {"op":"par_end"} are partitioned by their "thread" field
+///   and the partitions run concurrently (each on its own instances), released by a barrier.
+pub fn run_script(ops: &[Value], out: Out) {
+    let mut insts: Vec<Option<Slot>> = Vec::new();
+    let mut k = 0;
+    while k < ops.len() {
+        let op = &ops[k];
         let name = gs(op, "op", "");
-        let id = gi(op, "id", 0) as usize;
-        if name == "new" {
-            while insts.len() <= id {
+        if name == "par_begin" {
+            let mut end = k + 1;
+            while end < ops.len() && gs(&ops[end], "op", "") != "par_end" {
+                end += 1;
+            }
+            // partition by thread
+            let mut groups: std::collections::BTreeMap<i64, Vec<(usize, &Value)>> = Default::default();
+            for (ln, o) in ops.iter().enumerate().take(end).skip(k + 1) {
+                groups.entry(gi(o, "thread", 0)).or_default().push((ln, o));
+            }
+            // hand every thread the instances it uses (ids must be disjoint between threads)
+            let maxid = ops[k + 1..end].iter().map(|o| gi(o, "id", 0)).max().unwrap_or(0) as usize;
+            while insts.len() <= maxid {
                 insts.push(None);
             }
-            let (r, _, _) = parse_ratio(op.get("r").unwrap_or(&Value::Null));
-            let (mr, _, _) = parse_ratio(op.get("maxrel").unwrap_or(&Value::Null));
-            if gi(op, "T", 64) == 32 {
-                let (i, ev) = build::<f32>(op);
-                cx.emit(ev);
-                insts[id] = i.map(|x| (AnyInst::F32(x), r, mr));
-            } else {
-                let (i, ev) = build::<f64>(op);
-                cx.emit(ev);
-                insts[id] = i.map(|x| (AnyInst::F64(x), r, mr));
-            }
-            continue;
-        }
-        if name == "note" {
-            let mut ev = op.clone();
-            ev.as_object_mut().unwrap().insert("ev".into(), json!("note"));
-            cx.emit(ev);
-            continue;
-        }
-        let slot = match insts.get_mut(id) {
-            Some(Some(s)) => s,
-            _ => continue, // instance does not exist (constructor failed): op skipped
-        };
-        let (orig, maxrel) = (slot.1, slot.2);
-        macro_rules! with {
-            ($i:ident => $b:expr) => {
-                match &mut slot.0 {
-                    AnyInst::F32($i) => $b,
-                    AnyInst::F64($i) => $b,
+            let mut tables: Vec<(i64, Vec<(usize, &Value)>, Vec<Option<Slot>>)> = Vec::new();
+            for (t, g) in groups {
+                let mut table: Vec<Option<Slot>> = (0..=maxid).map(|_| None).collect();
+                for (_, o) in &g {
+                    let id = gi(o, "id", 0) as usize;
+                    if table[id].is_none() {
+                        table[id] = insts[id].take();
+                    }
                 }
-            };
-        }
-        let dead = with!(i => i.dead);
-        if dead {
+                tables.push((t, g, table));
+            }
+            let barrier = std::sync::Barrier::new(tables.len());
+            let results: Vec<(Vec<usize>, Vec<Option<Slot>>)> = std::thread::scope(|s| {
+                let hs: Vec<_> = tables
+                    .into_iter()
+                    .map(|(t, g, mut table)| {
+                        let out = out.clone();
+                        let barrier = &barrier;
+                        s.spawn(move || {
+                            let mut cx = Ctx { out, line: 0, thread: t };
+                            let ids: Vec<usize> = g.iter().map(|(_, o)| gi(o, "id", 0) as usize).collect();
+                            barrier.wait();
+                            for (ln, o) in g {
+                                cx.line = ln as i64 + 1;
+                                exec_op(&mut table, o, &mut cx);
+                            }
+                            (ids, table)
+                        })
+                    })
+                    .collect();
+                hs.into_iter().map(|h| h.join().expect("par thread")).collect()
+            });
+            for (ids, mut table) in results {
+                for id in ids {
+                    if table[id].is_some() {
+                        insts[id] = table[id].take();
+                    }
+                }
+            }
+            k = end + 1;
             continue;
         }
-        match name {
-            "process" | "partial" | "bad" => with!(i => i.op_process(op, &mut cx)),
-            "set_ratio" => with!(i => i.op_set_ratio(op, &mut cx, orig, maxrel)),
-            "reset" | "set_chunk" | "getters" => with!(i => i.op_simple(op, &mut cx)),
-            _ => {}
+        let t = gi(op, "thread", 0);
+        let mut cx = Ctx { out: out.clone(), line: k as i64 + 1, thread: t };
+        if t > 0 {
+            let insts_ref = &mut insts;
+            std::thread::scope(|s| {
+                s.spawn(move || exec_op(insts_ref, op, &mut cx)).join().expect("op thread");
+            });
+        } else {
+            exec_op(&mut insts, op, &mut cx);
         }
+        k += 1;
     }
 }
